@@ -66,6 +66,7 @@ type env struct {
 	credOpt []verifiable.CredentialOpt
 	// lastDisc: number of SD-JWT disclosures of the credential projectCred saw last (0 for other credentials)
 	lastDisc int
+	issued   map[string][]byte
 	bbsPriv  []byte
 	bbsPub   []byte
 }
@@ -115,7 +116,7 @@ func newEnv() *env {
 
 	did, vm := fingerprint.CreateDIDKeyByCode(fingerprint.ED25519PubKeyMultiCodec, ed.PublicKeyBytes())
 
-	e := &env{loader: loader, ed: ed, p256: p256, edDID: did, edVM: vm}
+	e := &env{loader: loader, ed: ed, p256: p256, edDID: did, edVM: vm, issued: map[string][]byte{}}
 
 	seed := sha256.Sum256([]byte("verif c20 bbs issuer key"))
 	bpub, bpriv, err := bbs12381g2pub.GenerateKeyPair(sha256.New, seed[:])
@@ -218,7 +219,41 @@ func credJSON(c Cred, idx int) map[string]interface{} {
 }
 
 // buildCred makes the holder's credential object: issuer JSON -> (real proofs / real JWS) -> ParseCredential.
+// buildCred: the issued form (JWS / SD-JWT combined format / signed JSON) is made once per distinct credential
+// and cached; the holder parses it anew for every entry point, so no object is shared between runs.
 func (e *env) buildCred(c Cred, idx int) (*verifiable.Credential, error) {
+	keyBytes, _ := json.Marshal(c)
+	key := strconv.Itoa(idx) + string(keyBytes)
+
+	issued, ok := e.issued[key]
+	if !ok {
+		var err error
+
+		issued, err = e.issueCred(c, idx)
+		if err != nil {
+			return nil, err
+		}
+
+		if len(e.issued) > 4096 {
+			e.issued = map[string][]byte{}
+		}
+
+		e.issued[key] = issued
+	}
+
+	vc, err := verifiable.ParseCredential(issued, e.credOpt...)
+	if err != nil {
+		return nil, fmt.Errorf("holder parses the issued credential: %w", err)
+	}
+
+	if c.MapSubject {
+		vc.Subject = credJSON(c, idx)["credentialSubject"]
+	}
+
+	return vc, nil
+}
+
+func (e *env) issueCred(c Cred, idx int) ([]byte, error) {
 	raw, err := json.Marshal(credJSON(c, idx))
 	if err != nil {
 		return nil, err
@@ -236,7 +271,7 @@ func (e *env) buildCred(c Cred, idx int) (*verifiable.Credential, error) {
 			return nil, fmt.Errorf("make sd-jwt: %w", err)
 		}
 
-		return verifiable.ParseCredential([]byte(combined), e.credOpt...)
+		return []byte(combined), nil
 	}
 
 	if c.JWT != 0 {
@@ -258,15 +293,11 @@ func (e *env) buildCred(c Cred, idx int) (*verifiable.Credential, error) {
 			return nil, err
 		}
 
-		return verifiable.ParseCredential([]byte(jws), e.credOpt...)
-	}
-
-	if c.MapSubject {
-		vc.Subject = credJSON(c, idx)["credentialSubject"]
+		return []byte(jws), nil
 	}
 
 	if len(c.Proofs) == 0 {
-		return vc, nil
+		return raw, nil
 	}
 
 	for _, p := range c.Proofs {
@@ -294,12 +325,7 @@ func (e *env) buildCred(c Cred, idx int) (*verifiable.Credential, error) {
 		}
 	}
 
-	signed, err := vc.MarshalJSON()
-	if err != nil {
-		return nil, err
-	}
-
-	return verifiable.ParseCredential(signed, e.credOpt...)
+	return vc.MarshalJSON()
 }
 
 func prefJSON(v int) interface{} {
@@ -744,7 +770,7 @@ type Obs struct {
 	MSrc     []int     `json:"matched_src,omitempty"`
 }
 
-func (e *env) runCase(c Case) (*Obs, error) {
+func (e *env) runCase(c Case, array bool) (*Obs, error) {
 	pd, err := buildDef(c.Def)
 	if err != nil {
 		return nil, err
@@ -766,8 +792,7 @@ func (e *env) runCase(c Case) (*Obs, error) {
 		}
 	}
 
-	vp, err := pd.CreateVP(creds, e.loader, e.credOpt...)
-	if err != nil {
+	createErr := func(err error) {
 		switch {
 		case errors.Is(err, presexch.ErrNoCredentials):
 			o.Create = "nocreds"
@@ -778,68 +803,140 @@ func (e *env) runCase(c Case) (*Obs, error) {
 		}
 
 		o.Err = err.Error()
-
-		return o, nil
 	}
 
-	o.Create = "vp"
+	// descriptor map entries: single presentation "$" / "$.verifiableCredential[i]"; presentation array "$[i]" /
+	// "$.verifiableCredential[0]"
+	readMap := func(dm []interface{}) error {
+		for _, x := range dm {
+			mm, _ := x.(map[string]interface{})
+			id, _ := mm["id"].(string)
+			n, _ := atoiSuffix(id, "d")
+			f, _ := mm["format"].(string)
+			o.Fmt = fmtCodes[f]
+			nested, _ := mm["path_nested"].(map[string]interface{})
+			np, _ := nested["path"].(string)
+			nf, _ := nested["format"].(string)
+			top, _ := mm["path"].(string)
+			idx := -1
 
-	// the presentation travels as JSON to the verifier
-	vpBytes, err := vp.MarshalJSON()
-	if err != nil {
-		return nil, fmt.Errorf("marshal vp: %w", err)
+			switch {
+			case !array && top == "$" && strings.HasPrefix(np, "$.verifiableCredential[") && strings.HasSuffix(np, "]"):
+				idx, _ = strconv.Atoi(np[len("$.verifiableCredential[") : len(np)-1])
+			case array && np == "$.verifiableCredential[0]" && strings.HasPrefix(top, "$[") && strings.HasSuffix(top, "]"):
+				idx, _ = strconv.Atoi(top[2 : len(top)-1])
+			}
+
+			if idx < 0 {
+				return fmt.Errorf("descriptor map entry with unexpected paths: %v", mm)
+			}
+
+			o.Maps = append(o.Maps, Mapping{ID: n, Idx: idx, VCFmt: fmtCodes[nf]})
+		}
+
+		return nil
 	}
 
-	if os.Getenv("C20_DEBUG") != "" {
-		fmt.Fprintln(os.Stderr, string(vpBytes))
+	var (
+		parsedVPs []*verifiable.Presentation
+		mergedSub map[string]interface{}
+	)
+
+	// one presentation travels as JSON to the verifier
+	ship := func(vp *verifiable.Presentation) (map[string]interface{}, error) {
+		vpBytes, err := vp.MarshalJSON()
+		if err != nil {
+			return nil, fmt.Errorf("marshal vp: %w", err)
+		}
+
+		if os.Getenv("C20_DEBUG") != "" {
+			fmt.Fprintln(os.Stderr, string(vpBytes))
+		}
+
+		var vpMap map[string]interface{}
+		if err := json.Unmarshal(vpBytes, &vpMap); err != nil {
+			return nil, err
+		}
+
+		rawCreds, _ := vpMap["verifiableCredential"].([]interface{})
+		for _, rc := range rawCreds {
+			pc, src, err := e.projectCred(rc)
+			if err != nil {
+				return nil, err
+			}
+
+			o.Creds = append(o.Creds, pc)
+			o.Src = append(o.Src, src)
+			o.Disc = append(o.Disc, e.lastDisc)
+		}
+
+		parsed, err := verifiable.ParsePresentation(vpBytes, verifiable.WithPresJSONLDDocumentLoader(e.loader),
+			verifiable.WithPresDisabledProofCheck())
+		if err != nil {
+			return nil, fmt.Errorf("verifier cannot parse the presentation: %w", err)
+		}
+
+		parsedVPs = append(parsedVPs, parsed)
+
+		return vpMap, nil
 	}
 
-	var vpMap map[string]interface{}
-	if err := json.Unmarshal(vpBytes, &vpMap); err != nil {
-		return nil, err
-	}
+	if array {
+		vps, sub, err := pd.CreateVPArray(creds, e.loader, e.credOpt...)
+		if err != nil {
+			createErr(err)
 
-	rawCreds, _ := vpMap["verifiableCredential"].([]interface{})
-	for _, rc := range rawCreds {
-		pc, src, err := e.projectCred(rc)
+			return o, nil
+		}
+
+		o.Create = "vp"
+
+		for i, vp := range vps {
+			before := len(o.Creds)
+
+			if _, err := ship(vp); err != nil {
+				return nil, err
+			}
+
+			if len(o.Creds) != before+1 {
+				return nil, fmt.Errorf("presentation %d of the array carries %d credentials", i, len(o.Creds)-before)
+			}
+		}
+
+		subBytes, err := json.Marshal(sub)
 		if err != nil {
 			return nil, err
 		}
 
-		o.Creds = append(o.Creds, pc)
-		o.Src = append(o.Src, src)
-		o.Disc = append(o.Disc, e.lastDisc)
-	}
-
-	sub, _ := vpMap["presentation_submission"].(map[string]interface{})
-	dm, _ := sub["descriptor_map"].([]interface{})
-
-	for _, x := range dm {
-		mm, _ := x.(map[string]interface{})
-		id, _ := mm["id"].(string)
-		n, _ := atoiSuffix(id, "d")
-		f, _ := mm["format"].(string)
-		o.Fmt = fmtCodes[f]
-		nested, _ := mm["path_nested"].(map[string]interface{})
-		np, _ := nested["path"].(string)
-		nf, _ := nested["format"].(string)
-		idx := -1
-
-		if mm["path"] == "$" && strings.HasPrefix(np, "$.verifiableCredential[") && strings.HasSuffix(np, "]") {
-			idx, _ = strconv.Atoi(np[len("$.verifiableCredential[") : len(np)-1])
+		if err := json.Unmarshal(subBytes, &mergedSub); err != nil {
+			return nil, err
 		}
 
-		if idx < 0 {
-			return nil, fmt.Errorf("descriptor map entry with unexpected paths: %v", mm)
+		dm, _ := mergedSub["descriptor_map"].([]interface{})
+		if err := readMap(dm); err != nil {
+			return nil, err
+		}
+	} else {
+		vp, err := pd.CreateVP(creds, e.loader, e.credOpt...)
+		if err != nil {
+			createErr(err)
+
+			return o, nil
 		}
 
-		o.Maps = append(o.Maps, Mapping{ID: n, Idx: idx, VCFmt: fmtCodes[nf]})
-	}
+		o.Create = "vp"
 
-	parsedVP, err := verifiable.ParsePresentation(vpBytes, verifiable.WithPresJSONLDDocumentLoader(e.loader),
-		verifiable.WithPresDisabledProofCheck())
-	if err != nil {
-		return nil, fmt.Errorf("verifier cannot parse the presentation: %w", err)
+		vpMap, err := ship(vp)
+		if err != nil {
+			return nil, err
+		}
+
+		sub, _ := vpMap["presentation_submission"].(map[string]interface{})
+		dm, _ := sub["descriptor_map"].([]interface{})
+
+		if err := readMap(dm); err != nil {
+			return nil, err
+		}
 	}
 
 	mopts := []presexch.MatchOption{presexch.WithCredentialOptions(e.credOpt...)}
@@ -847,7 +944,11 @@ func (e *env) runCase(c Case) (*Obs, error) {
 		mopts = append(mopts, presexch.WithDisableSchemaValidation())
 	}
 
-	res, err := pd.Match([]*verifiable.Presentation{parsedVP}, e.loader, mopts...)
+	if array {
+		mopts = append(mopts, presexch.WithMergedSubmissionMap(mergedSub))
+	}
+
+	res, err := pd.Match(parsedVPs, e.loader, mopts...)
 	if err != nil {
 		o.Match = "err"
 		o.MatchErr = err.Error()
@@ -924,6 +1025,95 @@ func (e *env) runCase(c Case) (*Obs, error) {
 		n, _ := atoiSuffix(k, "d")
 		o.Matched = append(o.Matched, Matched{ID: n, Cred: pc})
 		o.MSrc = append(o.MSrc, src)
+	}
+
+	return o, nil
+}
+
+// MSRObs is what MatchSubmissionRequirement reported: per visited descriptor (requirement tree order) the credentials.
+type MSRObs struct {
+	Err   string    `json:"err,omitempty"`
+	Descs []MSRDesc `json:"descs,omitempty"`
+}
+
+// MSRDesc is one MatchedInputDescriptor.
+type MSRDesc struct {
+	ID    int    `json:"id"`
+	Creds []Cred `json:"creds"`
+	Src   []int  `json:"src"`
+	Disc  []int  `json:"disclosures"`
+}
+
+func (e *env) runMSR(c Case, apply bool) (*MSRObs, error) {
+	pd, err := buildDef(c.Def)
+	if err != nil {
+		return nil, err
+	}
+
+	creds := make([]*verifiable.Credential, len(c.Creds))
+	for i, cr := range c.Creds {
+		creds[i], err = e.buildCred(cr, i)
+		if err != nil {
+			return nil, fmt.Errorf("credential %d: %w", i, err)
+		}
+	}
+
+	var opts []presexch.MatchRequirementsOpt
+	if apply {
+		opts = append(opts, presexch.WithSelectiveDisclosureApply(), presexch.WithSDCredentialOptions(e.credOpt...))
+	}
+
+	res, err := pd.MatchSubmissionRequirement(creds, e.loader, opts...)
+	if err != nil {
+		return &MSRObs{Err: err.Error()}, nil
+	}
+
+	o := &MSRObs{}
+
+	var walk func(m *presexch.MatchedSubmissionRequirement) error
+	walk = func(m *presexch.MatchedSubmissionRequirement) error {
+		for _, d := range m.Descriptors {
+			id, _ := atoiSuffix(d.ID, "d")
+			md := MSRDesc{ID: id, Creds: []Cred{}, Src: []int{}, Disc: []int{}}
+
+			for _, vc := range d.MatchedVCs {
+				// what the holder application would show / hand on: the credential as it serialises
+				b, err := vc.MarshalJSON()
+				if err != nil {
+					return err
+				}
+
+				var raw interface{}
+				if err := json.Unmarshal(b, &raw); err != nil {
+					return err
+				}
+
+				pc, src, err := e.projectCred(raw)
+				if err != nil {
+					return err
+				}
+
+				md.Creds = append(md.Creds, pc)
+				md.Src = append(md.Src, src)
+				md.Disc = append(md.Disc, e.lastDisc)
+			}
+
+			o.Descs = append(o.Descs, md)
+		}
+
+		for _, n := range m.Nested {
+			if err := walk(n); err != nil {
+				return err
+			}
+		}
+
+		return nil
+	}
+
+	for _, m := range res {
+		if err := walk(m); err != nil {
+			return nil, err
+		}
 	}
 
 	return o, nil
